@@ -111,15 +111,18 @@ def signing_solver(m: dict[str, Any]) -> tuple[Any, list[Any], list[Any]]:
         generator_for_signature_type_f = kwargs["generator_for_signature_type_f"]
         signature_for_hash_type_f = m["signature_for_hash_type_f"]
         existing_script = kwargs.get("existing_script", b"")
+        # a listed key may be a stack atom that another solver has filled in by now (P2PKH: the key
+        # comes from the hash lookup): use its value everywhere, also when looking for signatures
+        # that are already there
+        sec_keys = [solved_values.get(sec_key, sec_key) for sec_key in m["sec_list"]]
         existing_signatures, secs_solved = _find_signatures(
             existing_script,
             generator_for_signature_type_f,
             signature_for_hash_type_f,
             len(m["sig_list"]),
-            m["sec_list"],
+            sec_keys,
         )
 
-        sec_keys = m["sec_list"]
         signature_variables = m["sig_list"]
 
         signature_placeholder = kwargs.get(
@@ -129,7 +132,6 @@ def signing_solver(m: dict[str, Any]) -> tuple[Any, list[Any], list[Any]]:
         db = kwargs.get("hash160_lookup", {})
         # we reverse this enumeration to make the behaviour look like the old signer. BRAIN DAMAGE
         for signature_order, sec_key in reversed(list(enumerate(sec_keys))):
-            sec_key = solved_values.get(sec_key, sec_key)
             if sec_key in secs_solved:
                 continue
             if len(existing_signatures) >= len(signature_variables):
